@@ -12,7 +12,8 @@ STYLES = ["named", "rust", "bare"]
 
 def rt_event(si, cmd, obs):
     """harness observation of a ser_de command -> trace event"""
-    ev = {"ev": "rt", "si": si, "pres": cmd["pres"], "slow": bool(cmd.get("slow_seq", False)), "res": obs.get("res")}
+    ev = {"ev": "rt", "si": si, "pres": cmd["pres"], "slow": bool(cmd.get("slow_seq", False)), "res": obs.get("res"),
+          "hints": cmd.get("hints", "default")}
     if obs.get("res") == "ok":
         ev["bytes"] = obs["bytes"]
         de = obs["de"]
@@ -52,7 +53,7 @@ def run(tier, seed):
                 if h == "alt":
                     cmd["shape"] = scn["v"]
                 cmds.append(cmd)
-                exps.append({"sid": scn["sid"], "enc": scn["enc"], "value": codec.expected_for(G, scn["v"], h), "hints": h, "style": st})
+                exps.append({"sid": scn["sid"], "enc": scn["enc"], "value": (scn["anyv"] if h == "any" else scn["v"]), "hints": h, "style": st})
     obs = common.run_harness(cmds)
     doubtful = []   # bytes differ from Enc: some other legal layout?  -> TLC decides
     n_borrow_checked = 0
@@ -121,6 +122,11 @@ def random_roundtrips(rng, n_events, rep, depth_extremes=False):
                              {"kind": "chunks", "sched": []}])
             cmds.append({"op": "ser_de", "id": len(cmds), "schema": {"nodes": nodes}, "pres": pres, "reader": rd,
                          "suffix": [rng.randrange(256)] if rng.random() < 0.5 else []})
+            h = rng.choice(["default", "default", "alt", "any"])      # family of serde hints of the target (DeView!Shown)
+            if h != "default":
+                cmds[-1]["hints"] = h
+                if h == "alt":
+                    cmds[-1]["shape"] = v
             sis.append(si + 1)
     obs = common.run_harness(cmds)
     events = [rt_event(si, c, o) for si, c, o in zip(sis, cmds, obs)]
